@@ -124,8 +124,8 @@ pub fn stack_guard() {
     let mut b = b0; b[n] = x;
     let words = s.into_compressed().unwrap();
     let (spec, nw) = spec_words(&b, n + 1, true);
-    assert!(words.len() == nw, "C08: export after inspection has a different length than the uninspected twin");
-    let mut i = 0; while i < nw { assert!(words[i] == spec[i], "C08: export after inspection differs from the uninspected twin"); i += 1; }
+    assert!(words.len() == nw, "C08/C16: export after inspection has a different length than the uninspected twin");
+    let mut i = 0; while i < nw { assert!(words[i] == spec[i], "C08/C16: export after inspection differs from the uninspected twin"); i += 1; }
     cover!(n == 8, "guard taken with the current word exactly full");
     cover!(n == 0, "guard on an empty coder");
 }
@@ -179,8 +179,8 @@ pub fn queue_guard() {
     let mut b = b0; b[n] = x;
     let words = q.into_compressed().unwrap();
     let (spec, nw) = spec_words(&b, n + 1, false);
-    assert!(words.len() == nw, "C08: queue export after inspection has a different length");
-    let mut i = 0; while i < nw { assert!(words[i] == spec[i], "C08: queue export after inspection differs from the uninspected twin"); i += 1; }
+    assert!(words.len() == nw, "C08/C16: queue export after inspection has a different length");
+    let mut i = 0; while i < nw { assert!(words[i] == spec[i], "C08/C16: queue export after inspection differs from the uninspected twin"); i += 1; }
     cover!(n == 8, "guard taken with the current word exactly full");
 }
 
